@@ -152,8 +152,31 @@ class _Ops:
                 out |= self.rulers(f, d, binds, at, depth + 1)
             # loop variable over a generator helper / a literal list of rulers
             for n in own_nodes(f.node):
+                it = None
                 if isinstance(n, (ast.For, ast.comprehension)) and isinstance(n.target, ast.Name) and n.target.id == e.id:
                     it = n.iter
+                elif isinstance(n, (ast.For, ast.comprehension)) and isinstance(n.target, ast.Tuple) and isinstance(n.iter, ast.Call) \
+                        and isinstance(n.iter.func, ast.Name) and n.iter.func.id == "zip" and len(n.iter.args) == len(n.target.elts):
+                    # for chain, ruler in zip((...names...), <rulers>)
+                    for t_, a_ in zip(n.target.elts, n.iter.args):
+                        if isinstance(t_, ast.Name) and t_.id == e.id:
+                            it = a_
+                elif isinstance(n, (ast.For, ast.comprehension)) and isinstance(n.target, ast.Tuple) \
+                        and any(isinstance(t_, ast.Name) and t_.id == e.id for t_ in n.target.elts):
+                    # for label, ruler in <helper yielding (label, ruler) pairs>
+                    idx = next(i for i, t_ in enumerate(n.target.elts) if isinstance(t_, ast.Name) and t_.id == e.id)
+                    got = False
+                    for (gf, x, ctx_node) in self._list_elems(f, n.iter, binds, 0):
+                        if isinstance(x, ast.Tuple) and len(x.elts) == len(n.target.elts):
+                            out |= self.rulers(gf, x.elts[idx], binds if gf is f else {}, ctx_node, depth + 1)
+                            got = True
+                    if got:
+                        continue
+                if it is not None:
+                    for (gf, x, ctx_node) in self._list_elems(f, it, binds, 0):
+                        out |= self.rulers(gf, x, binds if gf is f else {}, ctx_node, depth + 1)
+                    if out:
+                        continue
                     if isinstance(it, ast.Call):
                         cs = self.c.cg.site_of.get(it)
                         for g in (cs.callees if cs is not None else []):
@@ -169,6 +192,42 @@ class _Ops:
                             out |= self.rulers(f, x, binds, at, depth + 1)
             return out or {"?"}
         return {"?"}
+
+    def _list_elems(self, g: Func, e: ast.AST, binds: dict[str, ast.AST], depth: int) -> list[tuple[Func, ast.AST, ast.AST]]:
+        """Element expressions of a list-valued expression: literal, comprehension, a local list (its definitions plus what is
+        appended / extended to it), or a helper of the class returning one.  -> [(function, element expr, context node)]"""
+        if depth > 4:
+            return []
+        if isinstance(e, (ast.List, ast.Tuple)):
+            return [(g, x, x) for x in e.elts]
+        if isinstance(e, (ast.ListComp, ast.GeneratorExp)):
+            return [(g, e.elt, e.elt)]
+        if isinstance(e, ast.Name):
+            out: list[tuple[Func, ast.AST, ast.AST]] = []
+            for d in self._defs(g, e.id):
+                out += self._list_elems(g, d, binds, depth + 1)
+            for n in own_nodes(g.node):
+                if isinstance(n, ast.Call) and isinstance(n.func, ast.Attribute) and isinstance(n.func.value, ast.Name) and n.func.value.id == e.id:
+                    if n.func.attr == "append" and n.args:
+                        out.append((g, n.args[0], n))
+                    elif n.func.attr == "extend" and n.args:
+                        out += self._list_elems(g, n.args[0], binds, depth + 1)
+            return out
+        if isinstance(e, ast.Call) and isinstance(e.func, ast.Name) and e.func.id in ("list", "tuple", "iter") and len(e.args) == 1:
+            return self._list_elems(g, e.args[0], binds, depth + 1)
+        if isinstance(e, ast.Call):
+            cs = self.c.cg.site_of.get(e)
+            out = []
+            for h in (cs.callees if cs is not None else []):
+                if h.cls != g.cls:
+                    continue
+                for rt in own_nodes(h.node):
+                    if isinstance(rt, ast.Return) and rt.value is not None:
+                        out += self._list_elems(h, rt.value, {}, depth + 1)
+                    if isinstance(rt, ast.Yield) and rt.value is not None:
+                        out.append((h, rt.value, rt))
+            return out
+        return []
 
     def collect(self, f: Func, binds: dict[str, ast.AST], depth: int = 0) -> None:
         if depth > 3:
